@@ -9,6 +9,7 @@ R6.5  errors carry status and response (HTTPError.__init__, alias __init__ templ
 R6.6  the shared-core predicate holds for every layout [= R11.2]; R6.7 call-local memo keys in the loader cover the status code
 R6.9  the alias module regenerated for the union of all clients' codes imports ClientError and ServerError unconditionally          [= R11.4]
 R6.10 the registry of a core contained in the regenerated package (at any depth) survives the removal of that package              [= R11.5]
+R6.12 generated dispatch: an undeclared / range-declared 4xx or 5xx is classified (ClientError / ServerError) before the catch-all raises the base class
 R6.11 the bundled transport never switches httpx's redirect-following on (a 3xx with a Location header must reach the raise guard)
 R6.8  the exception registry is read, extended and written back as a union, never rebuilt (alias classes of other clients stay importable)  [= R11.1]
 """
@@ -397,6 +398,36 @@ def _alias_generator_rules(fn: Function, helpers: Dict[str, ast.AST], rep: Repor
     return defined
 
 
+def _guard_codes(txt: str) -> Optional[frozenset]:
+    """statuses for which the emitted guard of `case <pattern> if <guard>:` holds (the guard is Python text over response.status_code / the capture)"""
+    try:
+        g = txt.split(" if ", 1)[1].rsplit(":", 1)[0]
+        if "\x00" in g:
+            return None
+        tree = ast.parse(g.strip(), mode="eval")
+    except (SyntaxError, IndexError):
+        return None
+    cap = txt[5:].split(" if ", 1)[0].strip()
+    out = set()
+    for code in DOMAIN:
+        class _V(ast.NodeTransformer):
+            def visit_Attribute(self, n):
+                return ast.copy_location(ast.Constant(code), n) if n.attr == "status_code" else n
+
+            def visit_Name(self, n):
+                return ast.copy_location(ast.Constant(code), n) if n.id == cap and cap != "_" else n
+
+        e = ast.fix_missing_locations(_V().visit(ast.parse(g.strip(), mode="eval")))
+        if any(isinstance(x, (ast.Name, ast.Attribute, ast.Call)) for x in ast.walk(e)):
+            return None
+        try:
+            if eval(compile(e, "<guard>", "eval"), {"__builtins__": {}}, {}):  # constants and comparisons only (checked above)
+                out.add(code)
+        except Exception:
+            return None
+    return frozenset(out)
+
+
 def _dispatch_rules(gen: Function, helpers: Dict[str, ast.AST], rep: Report, consts: Dict[str, tuple]) -> Set[int]:
     """R6.3 on the generator of the `match response.status_code` block. Returns the set of declared statuses for
     which an alias class is raised (for the agreement rule)."""
@@ -418,6 +449,8 @@ def _dispatch_rules(gen: Function, helpers: Dict[str, ast.AST], rep: Report, con
             if t is None:
                 return ("other", norm(call.args[0]))
             txt = t.text.lstrip()
+            if txt.startswith("case _ if ") or (txt.startswith("case ") and " if " in txt and not txt[5:6].isdigit()):
+                return ("case_guard", txt)  # `case _ if 400 <= response.status_code < 500:` / `case code if ...:`
             if txt.startswith("case _"):
                 return ("case_wild", txt)
             if txt.startswith("case "):
@@ -443,25 +476,87 @@ def _dispatch_rules(gen: Function, helpers: Dict[str, ast.AST], rep: Report, con
         parts = list(t.values) if isinstance(t, ast.BoolOp) and isinstance(t.op, ast.And) else [t]
         return any(any(isinstance(x, ast.Attribute) and x.attr == "status_code" for x in ast.walk(c)) and _ev2.codes_where(c, True) == set(range(200, 300)) for c in parts)
 
+    guard_arms: List[Tuple[int, Tuple]] = []
+    _DL = Locals(gen.node)
+
+    def _implied(e: ast.AST, truth: bool) -> Set[Tuple[str, bool]]:
+        """facts about plain boolean locals that follow from `e` evaluating to `truth`"""
+        if isinstance(e, ast.Name):
+            return {(e.id, truth)}
+        if isinstance(e, ast.UnaryOp) and isinstance(e.op, ast.Not):
+            return _implied(e.operand, not truth)
+        if isinstance(e, ast.Call) and isinstance(e.func, ast.Name) and e.func.id == "bool" and len(e.args) == 1:
+            return _implied(e.args[0], truth)
+        if isinstance(e, ast.BoolOp):
+            if (isinstance(e.op, ast.And) and truth) or (isinstance(e.op, ast.Or) and not truth):
+                out: Set[Tuple[str, bool]] = set()
+                for v in e.values:
+                    out |= _implied(v, truth)
+                return out
+        return set()
+
+    def _expand(fs: Set[Tuple[str, bool]]) -> Set[Tuple[str, bool]]:
+        """a local defined once as `flag = bool(a and b ...)`: flag true implies a and b"""
+        out = set(fs)
+        work = list(fs)
+        while work:
+            nm, tv = work.pop()
+            ds = [v for k_, v, _ in _DL.defs.get(nm, []) if k_ == "assign" and v is not None]
+            if len(_DL.defs.get(nm, [])) == 1 and len(ds) == 1:
+                for f_ in _implied(ds[0], tv):
+                    if f_ not in out and f_[0] != nm:
+                        out.add(f_)
+                        work.append(f_)
+        return out
+
+    # only locals that are consulted by at least two tests can make a path infeasible (everything else would just multiply states)
+    _cnt: Dict[str, int] = {}
+    for _n in cfg.nodes:
+        if _n.kind == "test" and _n.ast is not None and not _n.copy:
+            for nm_ in {f_[0] for tv_ in (True, False) for f_ in _expand(_implied(_n.ast, tv_))}:
+                _cnt[nm_] = _cnt.get(nm_, 0) + 1
+    _seed: Set[str] = set()
+    for _if in [x for x in ast.walk(gen.node) if isinstance(x, ast.If)]:
+        if any((classify(c) or ("",))[0] in ("case_guard", "case_wild") for c in calls_in(_if)):
+            _seed |= {f_[0] for tv_ in (True, False) for f_ in _expand(_implied(_if.test, tv_))}
+    _relevant = {nm_ for nm_, c_ in _cnt.items() if c_ >= 2 and nm_ in _seed}
+    rep.count("R6.12:path_facts_tracked", sorted(_relevant))
+
     def transfer(node, st, label):
-        arm, depth, has_raise, has_return, g2 = st
+        arm, depth, has_raise, has_return, g2, covered, facts = st
         a = node.ast
+        if node.kind == "test" and a is not None and label in ("true", "false"):
+            # boolean locals decide which arms are written: a path that takes `if not flag or ...` as false and later `if flag` as false does not exist
+            learnt = {f_ for f_ in _expand(_implied(a, label == "true")) if f_[0] in _relevant}
+            known = dict(facts)
+            for nm, tv in learnt:
+                if known.get(nm, tv) != tv:
+                    return ()
+                known[nm] = tv
+            facts = frozenset(known.items())
         if node.kind == "test" and a is not None and _is_2xx_test(a):
             if label == "true":
                 g2 = "2xx"
             elif label == "false":
                 g2 = "non2xx"
-            return ((arm, depth, has_raise, has_return, g2),)
+            return ((arm, depth, has_raise, has_return, g2, covered, facts),)
         if node.kind == "iter":
-            return ((arm, depth, has_raise, has_return, None if arm is None else g2),)
+            return ((arm, depth, has_raise, has_return, None if arm is None else g2, covered, facts),)
+        if node.kind == "stmt" and isinstance(a, (ast.Assign, ast.AugAssign, ast.AnnAssign)):
+            tg = a.targets if isinstance(a, ast.Assign) else [a.target]
+            killed = {t.id for t in tg if isinstance(t, ast.Name)}
+            if killed:
+                facts = frozenset((n_, v_) for n_, v_ in facts if n_ not in killed)
         if node.kind != "stmt" or a is None:
-            return (st,)
+            return ((arm, depth, has_raise, has_return, g2, covered, facts),)
         for c in calls_in(a):
             k = classify(c)
             if k is None:
                 continue
             kind = k[0]
-            if kind in ("case_wild", "case_num"):
+            if kind == "case_guard":
+                arm, depth, has_raise, has_return = ("case_guard", k[1]), 0, False, False
+            elif kind in ("case_wild", "case_num"):
                 arm, depth, has_raise, has_return = kind, 0, False, False
             elif kind == "match":
                 depth = -1  # the indent after `match` is not an arm
@@ -470,25 +565,59 @@ def _dispatch_rules(gen: Function, helpers: Dict[str, ast.AST], rep: Report, con
             elif kind == "dedent":
                 depth -= 1
                 if arm is not None and depth == 0:
-                    closures.append((node.id, (arm, has_raise, has_return, g2)))
+                    if isinstance(arm, tuple) and isinstance(has_raise, str) and not has_return:
+                        gc = _guard_codes(arm[1])
+                        if gc is not None and has_raise == "ClientError" and gc == frozenset(range(400, 500)):
+                            covered = covered | {"4xx"}
+                        if gc is not None and has_raise == "ServerError" and gc == frozenset(range(500, 600)):
+                            covered = covered | {"5xx"}
+                    closures.append((node.id, (arm, has_raise, has_return, g2, covered)))
                     arm, g2 = None, None
             elif kind == "raise" and arm is not None:
-                has_raise = True
+                has_raise = k[1].split("(", 1)[0][6:].strip() or True
             elif kind == "return" and arm is not None:
                 has_return = has_return or k[1][:60]
-        return ((arm, max(-2, min(depth, 6)), has_raise, has_return, g2),)
+        return ((arm, max(-2, min(depth, 6)), has_raise, has_return, g2, covered, facts),)
 
-    states, wit = forward(cfg, (None, 0, False, False, None), transfer)
+    states, wit = forward(cfg, (None, 0, False, False, None, frozenset(), frozenset()), transfer)
     n_arms = len({(n, c) for n, c in closures})
     rep.count("R6.3:arm_closures(path-classes)", n_arms)
     rep.require(n_arms >= 4, f"R6.3: only {n_arms} case-arm closures found in the dispatch generator (floor 4)")
     seen: Set[Tuple] = set()
-    for nid, (arm, has_raise, has_return, g2) in closures:
+    tails: Set[Tuple] = set()
+    for nid, (arm, has_raise, has_return, g2, covered) in closures:
+        if arm == "case_wild" and has_raise and not has_return:
+            tails.add((cfg.nodes[nid].lineno, covered))
         key = (cfg.nodes[nid].lineno, arm, has_raise, has_return, g2)
         if key in seen:
             continue
         seen.add(key)
         loc = gen.loc(cfg.nodes[nid].ast)
+        if isinstance(arm, tuple):
+            codes = _guard_codes(arm[1])
+            gtxt = arm[1].split(" if ", 1)[1].rsplit(":", 1)[0]
+            sub = f"{sub0} guarded arm `if {gtxt}`"
+            if codes is None:
+                if has_raise and not has_return:
+                    rep.ok("R6.3", sub, "a guard that is not evaluated: the arm raises and never returns", loc)
+                else:
+                    rep.violation("R6.3", sub, f"{gen.fq}|guarded-arm-returns|{gtxt}", "an arm whose guard cannot be shown to be 2xx-only returns a value", loc)
+            elif codes <= set(range(200, 300)):
+                rep.ok("R6.3", sub, f"success arm for {fmt(codes)} (see C05)", loc)
+            elif has_return or not has_raise:
+                rep.violation("R6.3", sub, f"{gen.fq}|guarded-arm-returns|{fmt(codes & NON2XX)}",
+                              f"the arm answers the non-2xx statuses {fmt(codes & NON2XX)} with a return (or without a raise)", loc)
+            else:
+                cls = has_raise if isinstance(has_raise, str) else "?"
+                want = {"ClientError": set(range(400, 500)), "ServerError": set(range(500, 600))}
+                wrong = (codes - want[cls]) if cls in want else (codes & set(range(400, 600)))
+                if wrong:
+                    rep.violation("R6.2", sub, f"{gen.fq}|guarded-arm-class|{cls}|{fmt(wrong)}",
+                                  f"`raise {cls}` answers {fmt(wrong)}: a 4xx must be a ClientError, a 5xx a ServerError, anything else the base class", loc)
+                else:
+                    rep.ok("R6.2", sub, f"`raise {cls}` exactly for {fmt(codes)}", loc)
+                guard_arms.append((nid, (cls, codes)))
+            continue
         if arm == "case_wild":
             sub = f"{sub0} wildcard arm closed at L{cfg.nodes[nid].lineno} ({'returns ' + has_return if has_return else 'raise'})"
             if has_raise and not has_return:
@@ -506,6 +635,19 @@ def _dispatch_rules(gen: Function, helpers: Dict[str, ast.AST], rep: Report, con
             else:
                 rep.violation("R6.3", sub, f"{gen.fq}|non2xx-arm-returns|{g2}|raise={has_raise}|return={has_return or '-'}",
                               "a declared non-2xx status arm can return a value / lacks a raise", loc)
+
+    # R6.12 classified tail: where the wildcard arm raises (the base class), every 4xx / 5xx without an arm of its own was answered before by
+    # `case _ if 400 <= status < 500: raise ClientError` / `... 500 <= status < 600: raise ServerError` on the same generator path
+    for ln, covered in sorted(tails, key=lambda t: (t[0], sorted(t[1]))):
+        sub = f"{sub0} statuses reaching the raising wildcard arm (closed at L{ln}; classified arms on this path: {sorted(covered) or 'none'})"
+        missing = [r for r in ("4xx", "5xx") if r not in covered]
+        if missing:
+            rep.violation("R6.12", sub, f"{gen.fq}|unclassified-tail|{'+'.join(missing)}",
+                          f"an undeclared (or range-declared) {' / '.join(missing)} status handed over by a non-raising transport falls into `case _:` and raises the base HTTPError: "
+                          "`except ClientError` / `except ServerError` handlers miss it", gen.loc())
+        else:
+            rep.ok("R6.12", sub, "4xx -> ClientError and 5xx -> ServerError are raised before the catch-all; the base class remains for statuses outside 400..599", gen.loc())
+    rep.require(bool(tails), "R6.12: no raising wildcard arm found in the dispatch generator (anchor)")
 
     # set of codes for which an alias raise is emitted: guards of the `raise {alias}` write
     from sa.match import Locals as _L, match as _match
